@@ -17,11 +17,20 @@ class Check(EngineCheck):
                 "LLBuild.Refine.EngineImpl_sound_C05_quiescent_sized", "LLBuild.Refine.EngineImpl_sound_C01_sized",
                 # cancellation arriving from any thread at any item boundary
                 "LLBuild.Refine.build_terminates_async", "LLBuild.Refine.EngineImpl_terminates_async",
-                "LLBuild.Refine.EngineImpl_sound_C05_quiescent_async", "LLBuild.Refine.EngineImpl_sound_C01_async"]
+                "LLBuild.Refine.EngineImpl_sound_C05_quiescent_async", "LLBuild.Refine.EngineImpl_sound_C01_async",
+                # on the concrete model's PRINTED traces (Props/EngineImplSched3.lean), all histories with kills, all schedules:
+                # work after the cancellation => the build fails; a returned value is clean even in the late-cancel race; only
+                # completed tasks are persisted (store level); later builds clean (same engine / after restart); nothing after return
+                "LLBuild.Refine.EngineImpl_sound_C05_cancel_fails", "LLBuild.Refine.EngineImpl_sound_C05_returned_value_is_clean",
+                "LLBuild.Refine.EngineImpl_sound_C05_failure_returns_zero", "LLBuild.Refine.EngineImpl_sound_C05_persisted_only_completed",
+                "LLBuild.Refine.EngineImpl_sound_C05_later_builds_clean", "LLBuild.Refine.EngineImpl_sound_C05_later_builds_clean_after_restart",
+                "LLBuild.Refine.EngineImpl_sound_C05_no_callback_after_return", "LLBuild.Refine.C05_no_token_characterisation",
+                "LLBuild.Refine.runBuildA_cancel_then_work_dec"]
     mix = [(0.6, {"cancel": True}), (0.15, {"cancel": True, "threads": True}), (0.15, {"cancel": True, "cyclic": True}), (0.1, {"foreign_cancel": True})]
     budget = (350, 3500)
     assumptions = EngineCheck.assumptions + [
-        "termination after cancellation ('never hangs') is checked by the harness watchdog with cancellation delivered at hook points and inside callbacks; it is not a theorem",
+        "termination after cancellation ('never hangs'): a theorem for the transliterated engine (EngineImpl_terminates_async, under the size condition); on the real engine it is additionally watched by the harness watchdog with cancellation delivered at hook points, inside callbacks and from a foreign thread",
+        "'cancelling makes the build call return failure' has no exact token-level characterisation (C05_no_token_characterisation: the work loop tests buildCancelled only at the top of an iteration and its last, idle iteration prints nothing; two runs with the same 37 tokens end R 0 and R v; the late edge replayed on the real engine) - proved instead: any work after X => failure (EngineImpl_sound_C05_cancel_fails), and a non-empty returned value is always the clean value (EngineImpl_sound_C05_returned_value_is_clean)",
         "cancelBuild() is never called from inside createExecutionQueue (the engine holds a non-recursive mutex there)"]
 
 
